@@ -87,6 +87,36 @@ Theorem C07_panic_independent_of_partition_partial :
 Proof. exact batch_equiv_panic. Qed.
 Print Assumptions C07_panic_independent_of_partition_partial.
 
+(* (b) checkpoint at a cut, restore, replay the tail: equals the whole log applied one at a time
+   (the restored store is the store at the cut: that is C14's statement; the tail may be grouped
+   and flagged differently from the live run) *)
+Theorem C07_cut_then_replay_partial :
+  forall store W R apply_w handler other_exec parse_err (err_invalid reply_nil : R) conflicts,
+    isolation store W R apply_w handler -> no_abort_in_batch store W R handler ->
+    forall rp1 rp2 so p1 p2 s,
+      match batched store W R apply_w handler other_exec parse_err err_invalid reply_nil conflicts rp1 false so s p1 with
+      | None => alone store W R apply_w handler other_exec parse_err err_invalid s (flatten p1 ++ flatten p2) = None
+      | Some (s1, o1, _) =>
+          match batched store W R apply_w handler other_exec parse_err err_invalid reply_nil conflicts rp2 false so s1 p2,
+                alone store W R apply_w handler other_exec parse_err err_invalid s (flatten p1 ++ flatten p2) with
+          | Some (s2, o2, _), Some (s3, o3) => s2 = s3 /\ Permutation (o1 ++ o2) o3
+          | None, None => True
+          | _, _ => False
+          end
+      end.
+Proof. exact cut_then_replay_expanded. Qed.
+Print Assumptions C07_cut_then_replay_partial.
+
+(* the batch operator's own invariants, no hypothesis on the handlers: an operator that is not batching is
+   in its initial state (empty dupCheckMap, no collected replies, empty write batch), and a batch never
+   holds more than maxDBBatchCmdNum collected replies *)
+Theorem C07_operator_invariant :
+  forall store W R apply_w handler other_exec parse_err (err_invalid reply_nil : R) conflicts c qs s st' s' o e,
+    steps store W R apply_w handler other_exec parse_err err_invalid reply_nil conflicts c init_op s qs = Some (st', s', o, e) ->
+    (batching st' = false -> st' = init_op) /\ N.of_nat (length (pend st')) <= max_db_batch_cmd_num.
+Proof. exact steps_op_ok_init. Qed.
+Print Assumptions C07_operator_invariant.
+
 (* the isolation hypothesis follows from read-set / write-set disjointness and the engine's frame property *)
 Theorem C07_isolation_from_rw_sets :
   forall (store W R K V : Type) apply_w (handler : req -> store -> outcome W R) (get : store -> K -> V) (wkey : W -> K)
